@@ -121,9 +121,12 @@ def walk_cases(ctx, root, p, w, out_cases, out_meta, cyclic, nontrivial, pick=No
             if p is None:
                 continue
             args = (Tree, fc.id_callbacks(p), args[2], True, False)
+        if getattr(ctx, 'n_timeouts', 0) >= 3:
+            return      # non-termination established; do not spend the budget on more hangs
         try:
             r = fc.traced_walk(cls, root, maps['ids'], maps['tids'], args, kw, method, timeout=10)
         except fc.Timeout:
+            ctx.n_timeouts = getattr(ctx, 'n_timeouts', 0) + 1
             ctx.violation('walk-timeout', dict(w, visitor=name), True,
                           '%s.%s did not return within 10 s on this forest (walks must terminate)' % (name, method))
             continue
@@ -272,9 +275,12 @@ def correspond(ctx):
             walk_cases(ctx, root, p, w, vcases, vmeta, True, True, rng if ncyc > 20 else None)
             # the front ends themselves must return on cyclic forests
             for amb in ('resolve', 'explicit'):
+                if getattr(ctx, 'n_timeouts', 0) >= 3:
+                    break
                 try:
                     fc.with_timeout(20, fc.mk(g, lexer, amb, 'normal').parse, text)
                 except fc.Timeout:
+                    ctx.n_timeouts = getattr(ctx, 'n_timeouts', 0) + 1
                     ctx.violation('walk-timeout', dict(w, ambiguity=amb), True,
                                   "Lark(ambiguity=%r).parse did not return within 20 s on a cyclic grammar" % amb)
                 except LarkError:
